@@ -251,33 +251,62 @@ def _d4(chk, fb):
        (b) DataTable: a duplicate-name refusal that throws Duplicated...RowName... tests rowNames_, ...ColumnName... tests colNames_"""
     n = 0
     for f in fb.concrete_fns():
-        if f.cls != "bpp::KeyvalTools" or f.body is None or not any(p_["name"] == "nested" for p_ in f.params):
+        # members of KeyvalTools and file-local helpers of KeyvalTools.cpp that receive the flag
+        if f.body is None or not (f.cls == "bpp::KeyvalTools" or f.file.endswith("Bpp/Text/KeyvalTools.cpp")):
             continue
-        for iff in f.all_nodes():
-            if iff["k"] != "IfStmt" or "cond" not in iff or "else" not in iff:
-                continue
-            ct = render(f.nodes[iff["cond"]])
-            if ct not in ("nested", "(!nested)", "!nested"):
-                continue
-            pos = ct == "nested"
+        flagnames = [p_["name"] for p_ in f.params if (p_.get("ty") or "") == "bool" and p_["name"] in ("nested", "isNested", "nestedBlocks")]
+        if not flagnames:
+            continue
+        fl = flagnames[0]
+        cfg = f.cfg
+        if cfg is None:
+            continue
+        sites = [x for x in f.all_nodes() if x["k"] in ("CXXConstructExpr", "CXXTemporaryObjectExpr") and x.get("callee", {}).get("cls") in ("bpp::NestedStringTokenizer", "bpp::StringTokenizer")
+                 and not x["callee"].get("name", "").startswith("operator") and len(f.args(x)) >= 2]
 
-            def built(st):
-                out = set()
-                for x in walk(st):
-                    if x["k"] in ("CXXConstructExpr", "CXXTemporaryObjectExpr", "CXXNewExpr") and x.get("callee", {}).get("cls") in ("bpp::NestedStringTokenizer", "bpp::StringTokenizer"):
-                        out.add(x["callee"]["cls"].split("::")[-1])
-                return out
-            th, el = built(f.nodes[iff["then"]]), built(f.nodes[iff["else"]])
-            if not th and not el:
-                continue
-            n += 1
-            want_t, want_e = ({"NestedStringTokenizer"}, {"StringTokenizer"}) if pos else ({"StringTokenizer"}, {"NestedStringTokenizer"})
-            if th == want_t and el == want_e:
-                chk.proved("D4", f.key, "nested-selects-tokenizer", f.loc(iff), "nested -> NestedStringTokenizer, otherwise StringTokenizer")
-            else:
-                chk.refuted("D4", f.key, "nested-selects-tokenizer", f.loc(iff), "%s builds %s when nested is true and %s when it is false: bracketed argument values are split at their inner commas, what the writer emits no longer reads back" % (
-                    f.name, sorted(th) if pos else sorted(el), sorted(el) if pos else sorted(th)), witness={"input": "Invariant(dist=Gamma(n=4,alpha=1),p=0.1)"})
-    chk.floor("D4", "tokenizer selections on the 'nested' flag", n, 2)
+        def under(site, truth):
+            blk = cfg.stmt_block(site)
+            if blk is None:
+                return None
+
+            def est(facts):
+                for t, tr, nd in facts:
+                    tt = render(nd).replace("this.", "")
+                    if tt == fl and tr is truth:
+                        return True
+                    if tt in ("!%s" % fl, "(!%s)" % fl) and tr is (not truth):
+                        return True
+                return False
+            ok, _ = e1.guarded_by(cfg, blk, est)
+            return ok
+        seen_cls = {}
+        for x in sites:
+            cls_ = x["callee"]["cls"].split("::")[-1]
+            ut, uf = under(x, True), under(x, False)
+            seen_cls.setdefault(cls_, []).append((x, ut, uf))
+        if not sites:
+            continue
+        n += 1
+        bad = None
+        unsure = False
+        for cls_, lst in seen_cls.items():
+            for x, ut, uf in lst:
+                want_true = cls_ == "NestedStringTokenizer"
+                if (want_true and ut) or (not want_true and uf):
+                    continue
+                if (want_true and uf) or (not want_true and ut):
+                    bad = (x, cls_, want_true)
+                else:
+                    unsure = True
+        if bad:
+            x, cls_, want_true = bad
+            chk.refuted("D4", f.key, "nested-selects-tokenizer", f.loc(x), "%s builds a %s when %s is %s: bracketed argument values are %s, what the writer emits no longer reads back" % (
+                f.name, cls_, fl, "false" if want_true else "true", "split at their inner commas" if not want_true else "kept whole although nesting was not requested"), witness={"input": "Invariant(dist=Gamma(n=4,alpha=1),p=0.1)"})
+        elif unsure or len(seen_cls) < 2:
+            chk.unknown("D4", f.key, "nested-selects-tokenizer", f.loc(sites[0]), "tokenizer constructions not all under a test of '%s'" % fl)
+        else:
+            chk.proved("D4", f.key, "nested-selects-tokenizer", f.loc(sites[0]), "%s -> NestedStringTokenizer, otherwise StringTokenizer" % fl)
+    chk.floor("D4", "tokenizer selections on the 'nested' flag", n, 1)
     m = 0
     for f in fb.concrete_fns():
         if f.cls != "bpp::DataTable" or f.body is None:
